@@ -170,6 +170,7 @@ func Run(c *vl.Ctx) {
 			c.Outcome("agrees:" + k.Want.Term[:4])
 		}
 	}
+	runProjects(c, r)
 	for _, i := range []int{0, len(live) / 2, len(live) - 1} {
 		if i >= 0 && i < len(live) {
 			c.Sample(map[string]string{"id": live[i].ID, "program": fl.Render(live[i].P), "expected": live[i].Want.String()})
